@@ -119,7 +119,7 @@ PROBE_ORDER = ["zip-link-through-later-dirlink", "zip-link-in-non-utf8flag-dir",
 
 
 def job_for(tree, members, actions, handlers=ZIP_FIRST, extra_root=None, cwd_files=None, container=None, infolist=True):
-    return {"op": "c16", "tree": G.extracted_of(tree), "members": members, "actions": actions,
+    return {"op": "c16", "tree": G.extracted_of(tree), "stage": G.staged_of(tree), "members": members, "actions": actions,
             "config": config_for(handlers), "extra_root": extra_root or [], "cwd_files": cwd_files or [],
             "container": container, "infolist": infolist}
 
@@ -415,10 +415,17 @@ def part_oracle(chk, tier):
         big = ("bigfiles",) if i % 2 == 0 else ()
         if tier == "thorough" and i % 8 == 0:
             big += ("hugefiles",)
-        tree = G.gen_tree(rng, feats[i % len(feats)] + ("rootmeta",) + big)
+        tree = G.gen_tree(rng, feats[i % len(feats)] + ("rootmeta", "nested") + big)
         members = G.members_of(tree, rng, ["tree", "shuffle", "links_first"][i % 3])
         sels = G.tree_selectors(tree, rng, extra=4)
         sels = [p for p in sels if "//" not in p and not p.startswith("/")]
+        if len(sels) > 70:
+            # always: the top, every stored archive and the first things inside it; the rest sampled
+            arcs = [e["path"] for e in G.flatten(tree) if e["path"].endswith(".zip")]
+            must = [p for p in sels if p == "" or p in arcs or any(p.startswith(a + "/") and p.count("/") == a.count("/") + 1 for a in arcs)]
+            must = must[:40]
+            rest = [p for p in sels if p not in must]
+            sels = must + rng.sample(rest, min(len(rest), 70 - len(must)))
         extra = []
         for e in tree:
             if e["path"].endswith("mail.mbox"):
@@ -462,7 +469,8 @@ def part_oracle(chk, tier):
                 # re-extracted) between two rounds of browsing; the archive has to follow the tree
                 tree2 = G.mutate_tree(tree, rng)
                 members2 = G.members_of(tree2, rng, "tree")
-                rw = {"do": "rewrite", "tree": G.extracted_of(tree2), "members": members2, "container": conts[i]}
+                rw = {"do": "rewrite", "tree": G.extracted_of(tree2), "stage": G.staged_of(tree2), "members": members2,
+                      "container": conts[i]}
                 zacts.append(rw)
                 tacts.append(rw)
                 sels2 = [p for p in G.tree_selectors(tree2, rng, extra=2) if "//" not in p and not p.startswith("/")]
@@ -616,9 +624,11 @@ def classify_request_diff(tree, p, d19_paths):
     if any(q.startswith(base + "/") and "/" not in q[len(base) + 1:] for q in d19_paths if base) or \
             (base == "" and any("/" not in q for q in d19_paths)):
         return "D19-archive-listing-differs"
-    by_path = {e["path"]: e for e in tree}
+    by_path = {e["path"]: e for e in G.flatten(tree)}
     parts = base.split("/") if base else []
     import re
+    if any(e["kind"] == "archive" and (base == e["path"] or base.startswith(e["path"] + "/")) for e in tree):
+        return "zip-archive-inside-archive-differs"
     if any(re.search(r"\.zip$", c) for c in parts):
         return "zip-member-named-like-archive"
     for i in range(1, len(parts) + 1):
@@ -712,8 +722,8 @@ def replay(path):
         acts_z = [{"do": "req", "data": r["request_zip_latin1"], "tls": r["tls"]}]
         acts_t = [{"do": "req", "data": r["request_tree_latin1"], "tls": r["tls"]}]
         if "history" in r:                                 # browse, update the site in place, browse again
-            rw = {"do": "rewrite", "tree": G.extracted_of(r["tree_after_update"]), "members": r["members_after_update"],
-                  "container": r.get("container")}
+            rw = {"do": "rewrite", "tree": G.extracted_of(r["tree_after_update"]), "stage": G.staged_of(r["tree_after_update"]),
+                  "members": r["members_after_update"], "container": r.get("container")}
             root_z, _ = gen.request_bytes("gopher", ZSEL)
             acts_z = [{"do": "req", "data": gen.lat(root_z), "tls": False}] + acts_z + [rw] + acts_z
             acts_t = [{"do": "req", "data": r["request_tree_latin1"], "tls": r["tls"]}] + acts_t + [rw] + acts_t
